@@ -7,5 +7,5 @@ B(b) == IF b THEN 1 ELSE 0
 Emit == PrintT(ToJson([n |-> c.n, i |-> c.i, fam |-> c.fam, sub |-> c.sub, k |-> c.k,
                        index |-> c.index, total |-> c.total, leaf |-> c.leaf, arg |-> c.arg,
                        aunts |-> c.aunts, root |-> c.root,
-                       v1 |-> V1(c), v2 |-> V2(c), m |-> B(ModelAccepts(c))]))
+                       path |-> IF SamePath(c) THEN "same-shape" ELSE "other-shape", v1 |-> V1(c), v2 |-> V2(c), m |-> B(ModelAccepts(c))]))
 =============================================================================
